@@ -473,7 +473,7 @@ pub fn cmd_static(a: &Args) {
     let with_cc = a.get("cc", "no") == "yes";
     let fault = a.get("fault", "no") == "yes";
     let failing = a.get("failing", "no") == "yes";
-    let cap: usize = a.get("cap", "20000").parse().unwrap();
+    let cap: usize = a.get("cap", "1500").parse().unwrap();
     let maxq: usize = a.get("maxq", "1000000").parse().unwrap();
     let out = a.get("out", "/dev/stdout");
     let threads: usize = a.get("threads", "16").parse().unwrap();
